@@ -199,6 +199,11 @@ def _a5(ctx, R="C14-A5"):
     ors = [s for s in fi.stmts() if isinstance(s, ast.AugAssign) and norm(s.target) == "nondominated"]
     ctx.require(len(ors) >= 1, R, f"per-column accumulations {len(ors)}")
     member = ("k in edp_mapping.columns",)
+    absent = ("k not in edp_mapping.columns",)
+
+    def under(conds, present: bool):
+        """is the statement executed only when the column is present (resp. absent) in the row table?"""
+        return any((c in member and lab == ("true" if present else "false")) or (c in absent and lab == ("false" if present else "true")) for c, lab in conds)
     guarded_cmp, true_else = [], []
     for s in ors:
         ctx.check(isinstance(s.op, ast.BitOr), R, fi, s, "per-column results are combined with `&=`: a row must beat the reference in EVERY column to survive, so non-dominated rows are dropped", "per column: |=")
@@ -207,11 +212,11 @@ def _a5(ctx, R="C14-A5"):
         if isinstance(v, ast.Compare):
             ok = isinstance(v.ops[0], ast.LtE) and norm(v.comparators[0]) == "v" and "edp_mapping[k]" == norm(v.left)
             ctx.check(ok, R, fi, s, f"`{norm(v)}`: a row equal to the reference in this column is treated as dominated (or the comparison is reversed)", "row survives when row <= reference in some column")
-            if any(c in member and lab == "true" for c, lab in conds):
+            if under(conds, True):
                 guarded_cmp.append(s)
         else:
             ctx.check(isinstance(v, ast.Constant) and v.value is True, R, fi, s, "a column missing from the row table does not count as non-dominated", "missing column => non-dominated")
-            if any(c in member and lab == "false" for c, lab in conds):
+            if under(conds, False):
                 true_else.append(s)
     for s in guarded_cmp:
         ctx.check(bool(true_else), R, fi, s, "columns missing from the row table are skipped instead of counting as non-dominated: a pmapping that lacks a compared column (its cost there is zero) "
@@ -250,7 +255,7 @@ def _a5(ctx, R="C14-A5"):
         ctx.require(kind is not None, R, f"provenance of `{x.id}` in the reference point")
         ctx.check(kind == "rows", R, ini, apps[0], f"reference points are read from `{x.id}`, which was produced by a per-column operation (np.sort / max / ... over the solution table): "
                   "a point mixing the columns of different solutions can dominate rows that no actual solution dominates", f"`{x.id}`: whole rows of the previous solutions (reordered at most)")
-    ctx.floor(R, 12)
+    ctx.floor(R, 10)
 
 
 def _a6(ctx):
